@@ -18,6 +18,12 @@ PADS = [
     dict(type="aligned", width=0, height=-2, h=1, v=1, fill=" "),
     dict(type="aligned", width=-3, height=4, h=2, v=0, fill="."),
     dict(type="aligned", width=1, height=1, h=1, v=1, fill=" "),
+    # pairs of different paddings that give the same padded size
+    dict(type="aligned", width=5, height=3, h=0, v=0, fill=" "),
+    dict(type="aligned", width=5, height=3, h=2, v=2, fill="*"),
+    dict(type="exact", dims=[2, 0, 0, 1], fill=" "),
+    dict(type="exact", dims=[0, 1, 2, 0], fill=" "),
+    dict(type="exact", dims=[1, 0, 2, 1], fill="."),
 ]
 
 
